@@ -430,6 +430,7 @@ type Clause struct {
 type LoopSpec struct {
 	Ordinal    int
 	Invariants []Clause
+	Hints      []Clause // proved (then assumed) at every back edge before the invariants: proof decomposition only
 	Decreases  *Clause
 }
 
@@ -441,11 +442,15 @@ type Contract struct {
 	Ensures  []Clause
 	Modifies []Clause
 	Loops    map[int]*LoopSpec
+	Reveal   map[string]bool // opaque spec functions whose definitions this proof may use
+	ExitHints []Clause // proved (then assumed) at exit before the ensures clauses
+	SiteHints map[string][]Clause // proved (then assumed) right after the named call site ("callee@n")
 	Flags    map[string]bool // pure, inline, trusted, allocates...
 	Src      string
 }
 
 type SpecFunc struct {
+	Opaque bool // uninterpreted unless the contract under verification reveals it
 	Name   string
 	Params []QVar
 	Result string
@@ -459,6 +464,7 @@ type GhostVar struct {
 }
 
 type Lemma struct {
+	Reveal map[string]bool
 	Name  string
 	Pkg   string // package path giving the naming context
 	Vars  []QVar
@@ -622,6 +628,43 @@ func (db *SpecDB) ParseSpecText(lines []string, srcs []string) error {
 				return err
 			}
 			curLoop.Invariants = append(curLoop.Invariants, c)
+		case "hint-after":
+			if cur == nil {
+				return fmt.Errorf("%s: hint-after outside a contract", l.src)
+			}
+			f := strings.SplitN(rest, " ", 2)
+			if len(f) != 2 {
+				return fmt.Errorf("%s: hint-after <callee>@<n> [label] expr", l.src)
+			}
+			c, err := mk(f[1], l.src, "")
+			if err != nil {
+				return err
+			}
+			if cur.SiteHints == nil {
+				cur.SiteHints = map[string][]Clause{}
+			}
+			if c.Label == "" {
+				c.Label = fmt.Sprintf("h%d", len(cur.SiteHints[f[0]])+1)
+			}
+			cur.SiteHints[f[0]] = append(cur.SiteHints[f[0]], c)
+		case "hint":
+			c, err := mk(rest, l.src, "hint")
+			if err != nil {
+				return err
+			}
+			if curLoop != nil {
+				if c.Label == "hint" {
+					c.Label = fmt.Sprintf("hint%d", len(curLoop.Hints)+1)
+				}
+				curLoop.Hints = append(curLoop.Hints, c)
+			} else if cur != nil {
+				if c.Label == "hint" {
+					c.Label = fmt.Sprintf("hint%d", len(cur.ExitHints)+1)
+				}
+				cur.ExitHints = append(cur.ExitHints, c)
+			} else {
+				return fmt.Errorf("%s: hint outside a contract", l.src)
+			}
 		case "decreases":
 			if curLoop == nil {
 				return fmt.Errorf("%s: decreases outside a loop", l.src)
@@ -648,12 +691,37 @@ func (db *SpecDB) ParseSpecText(lines []string, srcs []string) error {
 			db.Consts[strings.TrimSpace(parts[0])] = strings.TrimSpace(parts[1])
 		case "allow":
 			db.Allow = append(db.Allow, strings.Fields(rest)...)
+		case "reveal":
+			switch {
+			case curLemma != nil:
+				if curLemma.Reveal == nil {
+					curLemma.Reveal = map[string]bool{}
+				}
+				for _, f := range strings.Fields(rest) {
+					curLemma.Reveal[f] = true
+				}
+			case cur != nil:
+				if cur.Reveal == nil {
+					cur.Reveal = map[string]bool{}
+				}
+				for _, f := range strings.Fields(rest) {
+					cur.Reveal[f] = true
+				}
+			default:
+				return fmt.Errorf("%s: reveal outside a contract or lemma", l.src)
+			}
 		case "spec":
-			// spec name(a T, b U) R [= expr]
+			// spec [opaque] name(a T, b U) R [= expr]
+			opaque := false
+			if strings.HasPrefix(rest, "opaque ") {
+				opaque = true
+				rest = strings.TrimSpace(rest[len("opaque "):])
+			}
 			sf, err := parseSpecFunc(rest, l.src)
 			if err != nil {
 				return err
 			}
+			sf.Opaque = opaque
 			db.Funcs[sf.Name] = sf
 			db.FuncOrder = append(db.FuncOrder, sf.Name)
 		case "axiom":
